@@ -11,6 +11,7 @@ use crate::rng::{hash64, Rng};
 use crate::rva::{self, guarded, MemReader};
 use crate::shapes;
 use serde_json::json;
+use std::collections::BTreeMap;
 
 fn slice(text: &str, a: usize, b: usize) -> String {
     text.chars().skip(a).take(b.saturating_sub(a) + 1).collect()
@@ -35,6 +36,41 @@ pub fn check_program(ctx: &Ctx, name: &str, p: &Program, split: bool, use_cli: b
     acc.note("shapes", name);
     acc.nontrivial.insert(hash64(&format!("{files:?}")));
     let multi = if files.len() > 1 { "multi-file" } else { "single-file" };
+    // ---- reference model of label hygiene: every definition and every use in the program text
+    let mut defs: BTreeMap<String, usize> = BTreeMap::new();
+    for l in &p.lines {
+        if let Line::Label(x) = l {
+            *defs.entry(x.clone()).or_insert(0) += 1;
+        }
+    }
+    let dups: Vec<String> = defs.iter().filter(|(_, n)| **n >= 2).map(|(k, _)| k.clone()).collect();
+    let undefined: Vec<String> = p
+        .lines
+        .iter()
+        .filter_map(|l| if let Line::Ins(i) = l { i.target_label() } else { None })
+        .filter(|t| !defs.contains_key(*t))
+        .map(str::to_string)
+        .collect();
+    if !dups.is_empty() {
+        acc.count("programs_with_a_duplicate_label", 1);
+    }
+    if !undefined.is_empty() {
+        acc.count("programs_with_an_undefined_label", 1);
+    }
+    let label_fault = if !dups.is_empty() { Some(("duplicate-label", dups[0].clone())) } else if !undefined.is_empty() { Some(("undefined-label", undefined[0].clone())) } else { None };
+    if let Some((what, label)) = &label_fault {
+        let code = a.cfg.as_ref().err().map(|e| e.code.clone());
+        let is_label_error = matches!(code.as_deref(), Some("cfg:LabelsNotDefined" | "cfg:DuplicateLabel"));
+        if !is_label_error {
+            acc.violation(
+                format!("C16|{name}|silent|{what}"),
+                format!("{name}: label `{label}` is {} but the analysis {}", if *what == "duplicate-label" { "defined more than once" } else { "used and never defined" }, match &code { None => "goes on without any error".to_string(), Some(c) => format!("stops with `{c}` instead") }),
+                replay.clone(),
+            );
+        } else {
+            acc.count("label_faults_reported", 1);
+        }
+    }
     match &a.cfg {
         Err(e) => {
             acc.count("analysis_failures_judged", 1);
